@@ -118,7 +118,7 @@ def stream_qfork(ctx):
     rng = ctx.rng.fork("qfork")
     boost = 4 if getattr(ctx, "search_boost", False) else 1
     nv = [0]
-    for pi in range(ctx.n(8, 40) * boost):
+    for pi in range(ctx.n(8, 20) * boost):
         if boost > 1 and nv[0]:
             break
         r0 = rng.fork("p%d" % pi)
@@ -148,7 +148,7 @@ def stream_qfork(ctx):
                 ctx.violation(bad[0], {"stream": "qfork", "program": prog, "schedule": list(s.choices),
                                        "violations": bad[:5]})
             return bad
-        c03.dfs(prog, bound=2, limit=ctx.n(120, 1500) * (4 if boost > 1 else 1), on_run=on_run)
+        c03.dfs(prog, bound=2, limit=ctx.n(120, 600) * (4 if boost > 1 else 1), on_run=on_run)
 
 
 def stream_storm(ctx):
